@@ -99,6 +99,10 @@ def world():
         rc = bool(b.frames)
         if not a.frames or a.frames[0].pyframe is not p.gi_frame:
             rec["problems"].append("extract_child(for_task=False) did not return the probe's frame")
+        elif a.frames[0].origin is not p or a.frames[0].lineno != p.gi_frame.f_lineno or a.frames[0].hide:
+            # whatever the options in force, the frame record itself is the same (only its contexts may be left empty)
+            rec["problems"].append("frame record depends on the options in force (%r): origin %r lineno %r hide %r" % (
+                (wc, rc), a.frames[0].origin, a.frames[0].lineno, a.frames[0].hide))
         if not rc:
             if b.root is not p or b.leaf is not None or b.error is not None or list(b.frames):
                 rec["problems"].append("stub is not a frameless Stack carrying only root: %r" % (b,))
